@@ -89,7 +89,7 @@ def plan(tier, seed):
         for order in fix.orders(n):
             specs.append(dict(kind='all', n=n, order=order, part=0, parts=1,
                               seed=seed))
-    k = 4 if tier == 'thorough' else 2
+    k = 24 if tier == 'thorough' else 2
     parts = 8
     for order in fix.pick_orders(4, k, seed):
         for p in range(parts):
